@@ -90,16 +90,55 @@ func c06Gen(rnd *mrand.Rand, quota bool) *c06Case {
 	mid := int32(100)
 	nns := 1 + rnd.IntN(3)
 	equalSizes := rnd.IntN(8) == 0 // many equal size/weight ratios
-	for ns := 1; ns <= nns; ns++ {
-		nsw := int64(1 + rnd.IntN(maxW))
-		c.meta.nss[int32(ns)] = &format.NamespaceMeta{ID: int32(ns), EffectiveWeight: nsw}
+	// Built-in ids are negative and their weights are editable through the journal (format.BuiltInGroupDefault /
+	// BuiltInNamespaceDefault "can be overridden by journal"); a metric that was never given a group / namespace may
+	// also carry the raw id 0, for which the sampler asks nobody and uses weight 1.  Each special id is used by at most
+	// one namespace of a case (partitionByGroup splits on a change of GroupID only).
+	specialNS := []int32{format.BuiltinNamespaceIDDefault, 0}
+	specialGroups := []int32{format.BuiltinGroupIDDefault, format.BuiltinGroupIDBuiltin, format.BuiltinGroupIDHost, 0}
+	rnd.Shuffle(len(specialNS), func(i, j int) { specialNS[i], specialNS[j] = specialNS[j], specialNS[i] })
+	rnd.Shuffle(len(specialGroups), func(i, j int) { specialGroups[i], specialGroups[j] = specialGroups[j], specialGroups[i] })
+	// weight the storage hands out for an id: edited (mostly), default 1, unusable 0 (the sampler clamps to 1) or no entry
+	storedWeight := func(id int32) (stored bool, w int64) {
+		if id == 0 {
+			return false, 1 // nobody is asked about id 0
+		}
+		if id > 0 {
+			return true, int64(1 + rnd.IntN(maxW))
+		}
+		switch rnd.IntN(8) {
+		case 0:
+			return false, 1 // built-in entity missing from the storage
+		case 1:
+			return true, 1 // never edited
+		case 2:
+			return true, 0 // clamped to 1 by the sampler
+		}
+		return true, int64(2 + rnd.IntN(maxW+2))
+	}
+	for nsi := 1; nsi <= nns; nsi++ {
+		ns := int32(nsi)
+		if len(specialNS) > 0 && rnd.IntN(4) == 0 {
+			ns, specialNS = specialNS[0], specialNS[1:]
+		}
+		stored, nsw := storedWeight(ns)
+		if stored {
+			c.meta.nss[ns] = &format.NamespaceMeta{ID: ns, EffectiveWeight: nsw}
+		}
+		nsw = max(nsw, 1)
 		for g, ng := 0, 1+rnd.IntN(3); g < ng; g++ {
-			gid := int32(ns*10 + g)
-			gw := int64(1 + rnd.IntN(maxW))
-			c.meta.groups[gid] = &format.MetricsGroup{ID: gid, NamespaceID: int32(ns), EffectiveWeight: gw}
+			gid := int32(nsi*10 + g)
+			if len(specialGroups) > 0 && rnd.IntN(4) == 0 {
+				gid, specialGroups = specialGroups[0], specialGroups[1:]
+			}
+			stored, gw := storedWeight(gid)
+			if stored {
+				c.meta.groups[gid] = &format.MetricsGroup{ID: gid, NamespaceID: ns, EffectiveWeight: gw}
+			}
+			gw = max(gw, 1)
 			for m, nm := 0, 1+rnd.IntN(3); m < nm; m++ {
 				mid++
-				sp := c06MetricSpec{ID: mid, NS: int32(ns), Group: gid, W: int64(1 + rnd.IntN(maxW)), NSW: nsw, GroupW: gw, Known: true}
+				sp := c06MetricSpec{ID: mid, NS: ns, Group: gid, W: int64(1 + rnd.IntN(maxW)), NSW: nsw, GroupW: gw, Known: true}
 				sp.RowSize = int64(1 + rnd.IntN(20))
 				if rnd.IntN(6) == 0 {
 					sp.RowSize = int64(1 + rnd.IntN(3))
@@ -265,16 +304,16 @@ func (k *c06Walk) levelKey(depth int) (func(*c06Item) (int64, int64), string) {
 	case "ns":
 		return func(ci *c06Item) (int64, int64) {
 			w := int64(1)
-			if m := c.meta.nss[ci.ns]; m != nil {
-				w = m.EffectiveWeight
+			if m := c.meta.nss[ci.ns]; m != nil && ci.ns != 0 { // id 0 = no such entity: nobody is asked, weight 1
+				w = max(m.EffectiveWeight, 1)
 			}
 			return int64(ci.ns), w
 		}, name
 	case "group":
 		return func(ci *c06Item) (int64, int64) {
 			w := int64(1)
-			if m := c.meta.groups[ci.group]; m != nil {
-				w = m.EffectiveWeight
+			if m := c.meta.groups[ci.group]; m != nil && ci.group != 0 { // id 0 = no such entity: nobody is asked, weight 1
+				w = max(m.EffectiveWeight, 1)
 			}
 			return int64(ci.group), w
 		}, name
@@ -651,6 +690,22 @@ func c06RunRows(r *verifkit.Run, w *verifkit.Worker, n int) {
 		if c.Opt.Budgets && len(fixedNodes) > 0 {
 			w.Count("rows.cases.with_fixed_budget_metrics", 1)
 		}
+		var builtinGroup, zeroGroup, builtinNS, zeroNS, edited bool
+		for _, sp := range c.Metrics {
+			if !sp.Known {
+				continue
+			}
+			builtinGroup = builtinGroup || sp.Group < 0
+			zeroGroup = zeroGroup || sp.Group == 0
+			builtinNS = builtinNS || sp.NS < 0
+			zeroNS = zeroNS || sp.NS == 0
+			edited = edited || (sp.Group < 0 && sp.GroupW > 1) || (sp.NS < 0 && sp.NSW > 1)
+		}
+		for name, on := range map[string]bool{"builtin_group_id": builtinGroup, "group_id_0": zeroGroup, "builtin_namespace_id": builtinNS, "namespace_id_0": zeroNS, "builtin_id_with_edited_weight": edited} {
+			if on {
+				w.Count("rows.cases.with_"+name, 1)
+			}
+		}
 		if w.Index == 0 && it < 2 {
 			r.Sample(map[string]any{"phase": "rows", "case": c, "kept_size": keptNonFixed, "discarded_rows": discards})
 		}
@@ -812,7 +867,7 @@ func c06RunQuota(r *verifkit.Run, w *verifkit.Worker, n int) {
 func TestVerifC06(t *testing.T) {
 	r := verifkit.Start(t, "C06", "data_model")
 	defer r.Finish()
-	r.SetRule("rows: 1–3 namespaces × 1–3 groups × 1–3 metrics (weights 1–4, sometimes up to 1000; some metrics unknown to the metadata), 1–60 equal-sized rows per metric, 0–3 fair-key levels, " +
+	r.SetRule("rows: 1–3 namespaces × 1–3 groups × 1–3 metrics (weights 1–4, sometimes up to 1000; ordinary positive ids mixed with the built-in default namespace −5 and built-in groups −4/−2/−3 whose stored weights are edited, default, 0 or absent, and raw id 0 = no group / no namespace; some metrics unknown to the metadata), 1–60 equal-sized rows per metric, 0–3 fair-key levels, " +
 		"optional fixed per-metric budgets, every combination of SampleBudgets/Namespaces/Groups/Keys, budgets from 1 to 1.5×total incl. total and total−1; real sampler with SelectF=⌊len/sf⌋, RoundF=floor " +
 		"against an integer water-filling walk. quota: one item per (metric, host), SampleF=SampleQuota as in calcHostMetricBudgets. " +
 		"non-trivial = the bucket does not fit and has ≥2 metrics; distinct = distinct (options, budget, per-metric shape).")
